@@ -1,19 +1,24 @@
 #!/bin/bash
-# run every seeded change against the quick check of its own property (on a patched scratch copy of /repo)
+# run every seeded change against the quick check of its own property (on a patched scratch copy of /repo), 4 at a time
 # usage: tools/seedmatrix.sh [glob]      -> seeded/DETECTION.txt
 out=/verif/seeded/DETECTION.txt
 # PROOF=1: proof obligations only (bounded stand-ins skipped) -> seeded/DETECTION_PROOF.txt
 if [ -n "$PROOF" ]; then out=/verif/seeded/DETECTION_PROOF.txt; export PYVC_ONLY_PROOF=1; fi
 pat=${1:-C*-*m[0-9]*}
-: > $out.tmp
-for d in /verif/seeded/$pat; do
-  [ -f $d/patch.diff ] || continue
+export PYVC_JOBS=${PYVC_JOBS:-4}
+tmpd=$(mktemp -d /tmp/sdmx.XXXXXX)
+one() {
+  d=$1; tmpd=$2
+  [ -f $d/patch.diff ] || exit 0
   n=$(basename $d); p=${n%%-*}
   res=$(/verif/tools/mutrun.sh $d/patch.diff $p --tier quick 2>&1); rc=$?
   if echo "$res" | grep -q 'patch failed\|does not apply'; then
-    echo "$n check=$p PATCH-STALE (does not apply to the current /repo tree)" >> $out.tmp; continue
+    echo "$n check=$p PATCH-STALE (does not apply to the current /repo tree)" > $tmpd/$n; exit 0
   fi
   line=$(echo "$res" | grep -m1 '^VIOLATION\|^UNDECIDED\|^CHECKER' | sed 's#/tmp/pfst-mut[^ ]*/out/replays/##' | cut -c1-200)
-  echo "$n check=$p exit=$rc $line" >> $out.tmp
-done
-mv $out.tmp $out
+  echo "$n check=$p exit=$rc $line" > $tmpd/$n
+}
+export -f one
+ls -d /verif/seeded/$pat | xargs -P 4 -I{} bash -c 'one {} '"$tmpd"
+cat $(ls $tmpd/* | sort) > $out
+rm -rf $tmpd
